@@ -8,7 +8,7 @@ from ..common import Result
 ID = "C02"
 LEVEL = "exploration"
 WORLDS = [(1, "plain")]
-BUDGET = {"quick": dict(cases=1000), "thorough": dict(cases=20000)}
+BUDGET = {"quick": dict(cases=2000), "thorough": dict(cases=60000)}
 MIN_NONTRIVIAL = {"quick": 1500, "thorough": 20000}
 BLOB = (400, 2600)
 RULE = ("Hypothesis byte-backed generator: tables of 1-300 commands (weighted 1-12 / 13-40 / 100-300) in 1-4 groups, names over "
